@@ -19,8 +19,17 @@ Oracle per ordered pair (x, y): version_compare(x, y) and the six rich compariso
 equal the sign given by mc.models.dpkgver (key order, asserted equal to the verrevcmp transliteration);
 exactly one of <, ==, > and <=, !=, >= consistent with them; version_compare(a, b) == -version_compare(b, a);
 a == b => hash(a) == hash(b).  Per triple: <= and == are transitive.
+
+Routes ("the other way in"): every unordered pair of R (K + the colon set + every 8th other string of S2) is also asked
+with the other operand kinds (a str or str-subclass operand on either side, NativeVersion, BaseVersion and subclass
+operands, version_compare on objects and mixed arguments, functools.cmp_to_key(version_compare)), on copies / pickles and
+on objects that were given their value by assignment after they had been hashed and compared, and through containers
+(set, dict, list membership, min, max, sorted of the pair); R in five arrangements and every ordered triple of 20 strings
+go through sorted / list.sort / reverse / cmp_to_key / key=Version / bisect.insort / heapq / min / max / set / dict.
 """
+import copy
 import itertools
+import pickle
 
 from .. import core
 from ..models import dpkgver, versyntax
@@ -36,7 +45,9 @@ RULE = ("states = valid version strings in the space (U_n + S, enumerated by wal
         "same-kind difference ('~' or a letter against another kind, the end of a part against anything); the pairs are "
         "all of (U_n + S)^2, S2^2 and S2 x K (K = core of U_n + S), each unordered pair owned by exactly one work unit; the "
         "S2 units come first in the unit list (a failure that depends on earlier comparisons is then found early by "
-        "the runner's sequential replay) and violations are ranked by the length of the pair")
+        "the runner's sequential replay) and violations are ranked by the length of the pair; routes: one state per string "
+        "of R, transitions = ordered pairs of R, traces / evaluations = route families executed per ordered pair (15) and "
+        "per sorted list (11)")
 BUDGET = {"quick": 240, "thorough": 3000}
 
 SIGMA = "019aB.+~-:"
@@ -91,6 +102,23 @@ def bounds(tier):
             "K": "%d strings of U_n + S: S-core%s + %r" % (len(k_raw(tier)), "" if tier == "quick" else " + U_2", K_EXTRA),
             "history": "one work unit that asks all ordered pairs of H (%d strings: the colon set and every 8th other string "
                        "of S2) twice in one process, the second time in reverse order with new objects" % len(history_strings({"s2": s2_raw({})})),
+            "routes": {"R": "%d strings: K, R_EXTRA, the colon set of S2, every 8th other string of S2; all unordered pairs, both "
+                            "directions" % len(route_strings({"k": k_raw(tier), "s2": s2_raw({})})),
+                       "per_ordered_pair": ["Version op str (six operators)", "str op Version (reflected, six)", "Version op str-subclass",
+                                            "NativeVersion op NativeVersion", "Version op NativeVersion", "Version op BaseVersion",
+                                            "Version op subclass and subclass op Version (six each; Python asks the subclass first)",
+                                            "version_compare(Version, Version), (str, Version), (Version, str), (str-subclass, BaseVersion), "
+                                            "(BaseVersion, BaseVersion)", "functools.cmp_to_key(version_compare)",
+                                            "copy.copy / copy.deepcopy / pickle of the operands (order and hash)",
+                                            "objects given their value by assignment (full_version; epoch, upstream_version, "
+                                            "debian_revision one by one) after being hashed and compared: order against each other and "
+                                            "against constructed objects, hash equal to the constructed object's",
+                                            "len({X, Y}), Y in {X}, {X: 1}.get(Y), Y in [X], [X].count(Y), {X} - {Y}", "min(X, Y), max(X, Y)",
+                                            "sorted([X, Y]), sorted(reverse=True), sorted(strings, key=cmp_to_key(version_compare))"],
+                       "sorting": "R in the arrangements %r and all ordered triples of %d strings through sorted, list.sort, "
+                                  "sorted(reverse=True), sorted(key=cmp_to_key(version_compare)), sorted(key=Version), bisect.insort, "
+                                  "heapq, min, max, len(set()), len(dict.fromkeys()): the stable sort by dpkg's key"
+                                  % (ARRANGEMENTS, len(K_EXTRA) + 8)},
             "S2_pairs": "all unordered pairs of S2 and all pairs S2 x K, both directions (pairs already in (U_n + S)^2 "
                         "are left to the units of that space)"}
 
@@ -104,6 +132,10 @@ def assumptions():
             "Version is NativeVersion (python-apt is not installed)",
             "the seed rotates the non-zero digits and the letters; '0' and the punctuation are never rotated; in S2 the "
             "digit '2' and the long digit runs are not rotated (the prefix in front of a run is)",
+            "routes: a str operand of a comparison is read as the version it spells (the library converts it; "
+            "debian_support.py _compare); BaseVersion can only be the right operand (it implements no comparison); "
+            "comparisons with None and with things that are not versions are outside the statement; sorting is stable, so "
+            "equal versions keep their input order; min / max return the first of several equal extremes (Python semantics)",
             "S2 is compared with itself and with the core K only, not with all of U_n + S (the pair space is quadratic)",
             "dpkg compares digit runs of any length digit by digit (no machine integer); the model does the same and "
             "a sample of S2 is cross-checked against dpkg --compare-versions in every run"]
@@ -188,7 +220,7 @@ def space(tier, seed):
         s2 = s2_raw(tr)
         core_k = [s.translate(tr) for s in k_raw(tier)]
         assert len(set(core_k)) == len(core_k) and all(s in old for s in core_k)
-        _CACHE[key] = {"strings": strings, "keys": [dpkgver.key(s) for s in strings], "walked": walked,
+        _CACHE[key] = {"tr": tr, "strings": strings, "keys": [dpkgver.key(s) for s in strings], "walked": walked,
                        "n_u": len(u), "tset": tset, "objs": None, "tobjs": None,
                        "s2": s2, "s2keys": [dpkgver.key(s) for s in s2], "s2old": [s in old for s in s2], "s2objs": None,
                        "k": core_k, "kkeys": [dpkgver.key(s) for s in core_k], "kobjs": None}
@@ -259,6 +291,10 @@ def _units(tier, seed):
     n = len(sp["tset"])
     per = -(-n // TRIPLE_UNITS)
     out += [{"k": "triples", "rows": [lo, min(lo + per, n)]} for lo in range(0, n, per)]
+    # the other ways in
+    out += [{"k": "routes", "row": i} for i in range(len(route_strings(sp)))]
+    out.append({"k": "route-sorts", "first": None})
+    out += [{"k": "route-sorts", "first": i} for i in range(len(triple_strings(sp)))]
     return out
 
 
@@ -269,6 +305,10 @@ def unit_cost(u, tier):
         return 1                         # started last: on a worker that has answered many other questions before
     if u["k"] == "pairs":
         return 100000 - u["row"]
+    if u["k"] == "routes":
+        return 60000 - 300 * u["row"]
+    if u["k"] == "route-sorts":
+        return 20000
     return 30000
 
 
@@ -362,6 +402,10 @@ def run_unit(u, tier, seed):
         return unit_s2(part, sp, u["row"])
     if u["k"] == "history":
         return unit_history(part, sp)
+    if u["k"] == "routes":
+        return unit_routes(part, sp, u["row"])
+    if u["k"] == "route-sorts":
+        return unit_route_sorts(part, sp, u["first"], tier, seed)
     return unit_triples(part, sp, u["rows"])
 
 
@@ -546,7 +590,280 @@ def unit_triples(part, sp, rows):
     return part
 
 
+# ------------------------------------------------------------------------------------------------
+# the other ways in: the same order through other operand kinds, other entry points, containers and sorting
+
+class _Str(str):
+    """a str subclass"""
+
+
+_SUB = [None]
+
+
+def _subclass():
+    from debian.debian_support import Version
+    if _SUB[0] is None or _SUB[0].__mro__[1] is not Version:
+        _SUB[0] = type("DerivedVersion", (Version,), {})
+    return _SUB[0]
+
+
+# strings added to R so that every rule of the order decides some pair of R inside a part as well (a non-digit run
+# that ends against one that goes on with '~', a letter, a digit or another character; the same in the revision)
+R_EXTRA = ["a~", "a0", "0a", "a.", "aa", "0-.", "0-+", "0-a", "0-B", "0-a~"]
+
+
+def route_strings(sp):
+    """R: K (S-core + the short strings; thorough: + U_2), R_EXTRA, the colon set of S2 and every 8th other string of S2"""
+    out = list(sp["k"])
+    out += [s for s in (x.translate(sp.get("tr", {})) for x in R_EXTRA) if s not in out]
+    out += [s for s in history_strings(sp) if s not in out]
+    assert all(in_space(s) for s in out)
+    return out
+
+
+def _ops6(X, Y):
+    return (X < Y, X <= Y, X == Y, X != Y, X >= Y, X > Y)
+
+
+def _ops3(X, Y):
+    return (X < Y, X == Y, X >= Y)
+
+
+def _built_by_assignment(s):
+    """two objects that hold the version s but were not constructed from it: one given the whole text, one given its
+    parts one after the other; both hashed before (a stale cached hash would show)"""
+    from debian.debian_support import Version
+    v1 = Version("0")
+    hash(v1)
+    v1.full_version = s
+    e, u, r = versyntax.parts(s)
+    v2 = Version("0~")
+    hash(v2)
+    v2 < v1
+    if e is not None:
+        v2.epoch = e
+    v2.upstream_version = u
+    if r is not None:
+        v2.debian_revision = r
+    return v1, v2
+
+
+def route_checks(x, y, e):
+    """-> [(route, expected, thunk)] for the ordered pair (x, y) whose sign under dpkg's order is e"""
+    import functools
+    from debian import debian_support as ds
+    X, Y = ds.Version(x), ds.Version(y)
+    Sub = _subclass()
+    K = functools.cmp_to_key(ds.version_compare)
+    o6, o3 = OPS_FOR[e], (e < 0, e == 0, e >= 0)
+    first_min, first_max = (Y if e > 0 else X), (Y if e < 0 else X)
+
+    def assigned():
+        x1, x2 = _built_by_assignment(x)
+        y1, y2 = _built_by_assignment(y)
+        return (_ops3(x1, y2), _ops3(x2, y1), _ops3(x1, Y), _ops3(X, y2), hash(x1) == hash(X), hash(x2) == hash(X),
+                e != 0 or hash(x1) == hash(y2))
+
+    def copies():
+        xc, xd, xp = copy.copy(X), copy.deepcopy(X), pickle.loads(pickle.dumps(X))
+        yc, yd, yp = copy.copy(Y), copy.deepcopy(Y), pickle.loads(pickle.dumps(Y))
+        return (_ops3(xc, yd), _ops3(xd, yp), _ops3(xp, yc), hash(xc) == hash(xd) == hash(xp) == hash(X), type(xd) is type(xp) is type(X),
+                e != 0 or hash(xp) == hash(yd))
+    return [
+        ("version-vs-str", o6, lambda: _ops6(X, y)),
+        ("str-vs-version", o6, lambda: _ops6(x, Y)),
+        ("version-vs-str-subclass", o3, lambda: _ops3(X, _Str(y))),
+        ("NativeVersion", o3, lambda: _ops3(ds.NativeVersion(x), ds.NativeVersion(y))),
+        ("version-vs-NativeVersion", o3, lambda: _ops3(X, ds.NativeVersion(y))),
+        ("version-vs-BaseVersion", o3, lambda: _ops3(X, ds.BaseVersion(y))),
+        ("version-vs-subclass", o6, lambda: _ops6(X, Sub(y))),
+        ("subclass-vs-version", o6, lambda: _ops6(Sub(x), Y)),
+        ("version_compare-objects", (e, e, e, e, e), lambda: (ds.version_compare(X, Y), ds.version_compare(x, Y), ds.version_compare(X, y),
+                                                            ds.version_compare(_Str(x), ds.BaseVersion(y)),
+                                                            ds.version_compare(ds.BaseVersion(x), ds.BaseVersion(y)))),
+        ("cmp_to_key", (e < 0, e == 0, e > 0), lambda: (K(x) < K(y), K(x) == K(y), K(x) > K(y))),
+        ("copies", (o3, o3, o3, True, True, True), copies),
+        ("built-by-assignment", (o3, o3, o3, o3, True, True, True), assigned),
+        ("set-dict-list-membership", (1 if e == 0 else 2, e == 0, e == 0, e == 0, int(e == 0), int(e != 0)),
+         lambda: (len({X, Y}), Y in {X}, {X: 1}.get(Y) == 1, Y in [X], [X].count(Y), len({X} - {Y}))),
+        ("min-max", (True, True), lambda: (min(X, Y) is first_min, max(X, Y) is first_max)),
+        ("sorted-pair", (True, True, True), lambda: (_same(sorted([X, Y]), [X, Y] if e <= 0 else [Y, X]),
+                                                      _same(sorted([X, Y], reverse=True), [X, Y] if e >= 0 else [Y, X]),
+                                                      _same(sorted([x, y], key=K), [x, y] if e <= 0 else [y, x]))),
+    ]
+
+
+def _same(got, want):
+    return len(got) == len(want) and all(g is w for g, w in zip(got, want))
+
+
+def run_route_pair(a, b):
+    """both directions of one unordered pair along every route -> [(sig, expected, observed)]"""
+    c, comp, why = model_pair(a, b)
+    bad = []
+    for x, y, e in ((a, b, c), (b, a, -c)):
+        try:
+            checks = route_checks(x, y, e)
+        except Exception as ex:
+            return [("via-routes/construct/raises/" + type(ex).__name__, "objects for %r and %r" % (x, y), "%s: %s" % (type(ex).__name__, ex))]
+        for route, want, thunk in checks:
+            try:
+                got = thunk()
+            except Exception as ex:
+                bad.append(("via-%s/raises/%s" % (route, type(ex).__name__), "%r for (%r, %r) (dpkg: %s)" % (want, x, y, WORD[e]),
+                            "%s: %s" % (type(ex).__name__, ex)))
+                continue
+            if got != want:
+                bad.append(("via-%s/order/%s/%s" % (route, comp, why), "%r for (%r, %r) (dpkg: %s)" % (want, x, y, WORD[e]), repr(got)))
+        if a == b:
+            break
+    return bad
+
+
+N_ROUTE_CALLS = 15
+
+
+def unit_routes(part, sp, i):
+    R = route_strings(sp)
+    a = R[i]
+    part.states += 1
+    for b in R[i:]:
+        bad = run_route_pair(a, b)
+        n = 1 if a == b else 2
+        part.transitions += n
+        part.traces += n * N_ROUTE_CALLS
+        part.evaluations += n * N_ROUTE_CALLS
+        c = dpkgver.compare(a, b)
+        part.outcomes["routes/%s" % WORD[c]] += 1
+        if c == 0 and a != b:
+            part.nontrivial += 1
+        for sig, exp, obs in bad:
+            part.violation(sig, {"k": "route-pair", "a": a, "b": b}, exp, obs, rank=len(a) + len(b))
+    part.extra["route pairs (unordered)"] += len(R) - i
+    if i % 37 == 0:
+        part.sample({"k": "route-pair", "a": a, "b": R[-1 - i // 2]})
+    return part
+
+
+ARRANGEMENTS = ["as-enumerated", "reversed", "by-text", "interleaved", "by-text-reversed"]
+
+
+def arrange(R, name):
+    if name == "as-enumerated":
+        return list(R)
+    if name == "reversed":
+        return list(R)[::-1]
+    if name == "by-text":
+        return sorted(R)
+    if name == "by-text-reversed":
+        return sorted(R, reverse=True)
+    return list(R)[::2] + list(R)[1::2][::-1]
+
+
+def run_route_sort(strings):
+    """one list of version strings through every sorting entry point; expected: the stable sort by dpkg's key"""
+    import bisect
+    import functools
+    import heapq
+    from debian import debian_support as ds
+    objs = [ds.Version(s) for s in strings]
+    keys = [dpkgver.key(s) for s in strings]
+    order = sorted(range(len(strings)), key=lambda i: keys[i])                    # stable
+    rorder = sorted(range(len(strings)), key=lambda i: keys[i], reverse=True)     # stable as well
+    want = [strings[i] for i in order]
+    bad = []
+
+    def texts(objs_):
+        return [str(o) for o in objs_]
+
+    def list_sort():
+        l = list(objs)
+        l.sort()
+        return texts(l)
+
+    def insort():
+        l = []
+        for o in objs:
+            bisect.insort(l, o)
+        return texts(l)
+
+    def heap():
+        h = list(objs)
+        heapq.heapify(h)
+        return [dpkgver.key(str(heapq.heappop(h))) for _ in range(len(objs))]
+    K = functools.cmp_to_key(ds.version_compare)
+    firstmin = strings[order[0]] if strings else None
+    maxkey = keys[order[-1]] if strings else None
+    firstmax = next(s for s, k in zip(strings, keys) if k == maxkey) if strings else None
+    for route, fn, exp in (("sorted", lambda: texts(sorted(objs)), want),
+                           ("list.sort", list_sort, want),
+                           ("sorted-reverse", lambda: texts(sorted(objs, reverse=True)), [strings[i] for i in rorder]),
+                           ("sorted-cmp_to_key", lambda: sorted(strings, key=K), want),
+                           ("sorted-key-Version", lambda: sorted(strings, key=ds.Version), want),
+                           ("bisect.insort", insort, want),
+                           ("heapq", heap, [keys[i] for i in order]),
+                           ("min", lambda: str(min(objs)), firstmin),
+                           ("max", lambda: str(max(objs)), firstmax),
+                           ("distinct-in-a-set", lambda: len(set(objs)), len(set(keys))),
+                           ("distinct-dict-keys", lambda: len(dict.fromkeys(objs)), len(set(keys)))):
+        try:
+            got = fn()
+        except Exception as ex:
+            bad.append(("via-%s/raises/%s" % (route, type(ex).__name__), "sorted by dpkg's order", "%s: %s" % (type(ex).__name__, ex)))
+            continue
+        if got != exp:
+            where = next((i for i, (g, w) in enumerate(zip(got, exp)) if g != w), None) if isinstance(exp, list) else None
+            bad.append(("via-%s/order" % route, "first difference at position %r: %r" % (where, exp if where is None else exp[max(0, where - 1):where + 2]),
+                        got if where is None else got[max(0, where - 1):where + 2]))
+    return bad
+
+
+def triple_strings(sp):
+    """T3: 20 strings - K_EXTRA and 8 spellings of equal / neighbouring versions"""
+    out = [s.translate(sp["tr"]) for s in K_EXTRA + ["1.0", "1.00", "0:1.0-0", "1.0~", "1.0-~", "1.a", "1.0+", "01"]]
+    assert len(set(out)) == len(out) and all(in_space(s) for s in out)
+    return out
+
+
+def unit_route_sorts(part, sp, first, tier, seed):
+    R = route_strings(sp)
+    if first is None:
+        for name in ARRANGEMENTS:
+            bad = run_route_sort(arrange(R, name))
+            part.states += 1
+            part.transitions += 1
+            part.traces += 11
+            part.evaluations += 11
+            part.outcomes["routes/sort of %d strings/%s" % (len(R), "VIOLATION" if bad else "agrees")] += 1
+            for sig, exp, obs in bad:
+                part.violation(sig, {"k": "route-sort", "arrangement": name, "tier": tier, "seed": seed}, exp, obs, rank=10 ** 6)
+        part.sample({"k": "route-sort", "arrangement": ARRANGEMENTS[-1]})
+        return part
+    T = triple_strings(sp)
+    a = T[first]
+    for b in T:
+        for c in T:
+            bad = run_route_sort([a, b, c])
+            part.transitions += 1
+            part.traces += 11
+            part.evaluations += 11
+            if len({dpkgver.key(s) for s in (a, b, c)}) < 3:
+                part.nontrivial += 1
+            for sig, exp, obs in bad:
+                part.violation(sig, {"k": "route-sort", "strings": [a, b, c]}, exp, obs, rank=len(a) + len(b) + len(c))
+    part.outcomes["routes/sorts of ordered triples"] += len(T) ** 2
+    part.sample({"k": "route-sort", "strings": [a, T[-1], T[len(T) // 2]]})
+    return part
+
+
 def replay(case):
+    if case["k"] == "route-pair":
+        return run_route_pair(case["a"], case["b"])
+    if case["k"] == "route-sort":
+        if "strings" in case:
+            return run_route_sort(case["strings"])
+        sp = space(case.get("tier", "quick"), case.get("seed", 0))
+        return run_route_sort(arrange(route_strings(sp), case["arrangement"]))
     if case["k"] == "triple":
         return run_triple([construct(case[x]) for x in ("a", "b", "c")])
     a, b = case["a"], case["b"]
